@@ -190,8 +190,8 @@ def run_c19(v, w, tier, replay):
     else:
         # 1. exhaustive exploration of the model + scenario generation
         # + [C19-1] environment actions (kill / respawn), [C19-2] two port options of different kinds in one add; the class
-        # "ranges overlapping across kinds" only with VERIF_ENABLE_CROSSKIND_PORTS=1 (suspected defect of /repo, see report B9)
-        ports_cfg = "MCService_ports_x.cfg" if os.environ.get("VERIF_ENABLE_CROSSKIND_PORTS") == "1" else "MCService_ports.cfg"
+        # "ranges overlapping across kinds" (the unchanged tree let two services of one batch record the same port: fixed in /repo by 65feffc)
+        ports_cfg = "MCService_ports_x.cfg"
         cfgs = (["MCService_thorough.cfg", "MCService_wide.cfg", "MCService_env_thorough.cfg", ports_cfg] if thorough
                 else ["MCService.cfg", "MCService_env.cfg", ports_cfg])
         scenarios, seen = [], set()
@@ -313,8 +313,7 @@ def run_c19(v, w, tier, replay):
         "exhaustive within: <= 2 services, <= %d operations, <= 2 faults, one requestable port; with environment events: <= %d operations, "
         "<= %d faults; two port options of different kinds per add: <= 3 services, <= 3 operations, no faults, three requestable ports%s" % (
             6 if thorough else 5, 5 if thorough else 4, 2 if thorough else 1,
-            "" if os.environ.get("VERIF_ENABLE_CROSSKIND_PORTS") == "1" else
-            "; ranges overlapping ACROSS kinds within one batch are generated only with VERIF_ENABLE_CROSSKIND_PORTS=1"),
+            ""),
     ]
 
 
